@@ -506,6 +506,28 @@ fn transports(run: &mut Run, quick: bool) {
     let mut probe_n = 0;
     let mut probe = tcp.connect();
     probe.cmd("use-db t tok");
+    // requests that are not well-formed HTTP at all
+    let odd: Vec<Vec<u8>> = vec![
+        b"GET / HTTP/1.1\r\nHost: x\r\n\r\n".to_vec(),
+        b"POST / HTTP/1.1\r\nHost: x\r\n\r\n".to_vec(),
+        b"POST / HTTP/1.1\r\nHost: x\r\nContent-Length: 100\r\n\r\nget k".to_vec(),
+        b"POST / HTTP/1.1\r\nHost: x\r\nContent-Length: abc\r\n\r\nget k".to_vec(),
+        b"POST / HTTP/1.1\r\nHost: x\r\nTransfer-Encoding: chunked\r\n\r\nzz\r\nget k\r\n0\r\n\r\n".to_vec(),
+        b"\xff\xfe\r\n\r\n".to_vec(),
+        b"POST / HTTP/9.9\r\n\r\n".to_vec(),
+        format!("POST / HTTP/1.1\r\nHost: x\r\nContent-Length: {}\r\n\r\n{}", 300_000, ";".repeat(300_000)).into_bytes(),
+        format!("POST / HTTP/1.1\r\nHost: x\r\nX-Long: {}\r\nContent-Length: 5\r\n\r\nget k", "h".repeat(100_000)).into_bytes(),
+    ];
+    for (i, rq) in odd.iter().enumerate() {
+        n += 1;
+        let _ = http.raw(rq);
+        let got = http.post(&format!("use-db t tok;set hprobe o{};get hprobe;remove hprobe", i)).unwrap_or_else(|e| format!("<no answer: {}>", e));
+        let panics = crate::world::PANIC_COUNT.load(std::sync::atomic::Ordering::SeqCst);
+        if !got.contains(&format!("value o{}", i)) || panics != panics_before {
+            let log = crate::world::PANIC_LOG.lock().unwrap().last().cloned().unwrap_or_default();
+            run.violate(crate::report::Violation { clause: if panics != panics_before { "handler-panic".into() } else { "later-client-fails".into() }, shape: format!("[http malformed request #{}]", i), detail: format!("after the request {:?} a later HTTP request was answered {:?}; panic {:?}", String::from_utf8_lossy(&rq[..rq.len().min(120)]), got, log), replay: serde_json::json!({"engine":"transport","transport":"http","malformed":i}) });
+        }
+    }
     for kind in [Kind::Unauth, Kind::Admin] {
         for line in lines.iter() {
             n += 1;
@@ -523,10 +545,24 @@ fn transports(run: &mut Run, quick: bool) {
                 let _ = c.read_line_timeout(40);
                 let _ = c.close_and_wait();
             }
-            // HTTP: the line as a body
-            if let Ok(text) = String::from_utf8(line.clone()) {
-                let body = if kind == Kind::Admin { format!("auth {} {};use-db t tok;{}", USER, PWD, text) } else { text };
-                let _ = http.post(&body);
+            // HTTP: the line as a body (bytes that are not UTF-8 included)
+            match String::from_utf8(line.clone()) {
+                Ok(text) => {
+                    let body = if kind == Kind::Admin { format!("auth {} {};use-db t tok;{}", USER, PWD, text) } else { text };
+                    let _ = http.post(&body);
+                }
+                Err(_) => {
+                    let _ = http.post_bytes(line);
+                }
+            }
+            // the HTTP front end has 4 worker threads: it must still answer, correctly
+            if n % 10 == 0 {
+                let got = http.post(&format!("use-db t tok;set hprobe h{};get hprobe;remove hprobe", n)).unwrap_or_else(|e| format!("<no answer: {}>", e));
+                if !got.contains(&format!("value h{}", n)) {
+                    let shown = String::from_utf8_lossy(line).chars().take(80).collect::<String>();
+                    run.violate(crate::report::Violation { clause: "later-client-fails".into(), shape: format!("[http {:?}] {}", kind, shown.split(' ').next().unwrap_or("")), detail: format!("after `{}` over HTTP a later HTTP request was answered {:?}", shown, got), replay: serde_json::json!({"engine":"transport","transport":"http","line":shown}) });
+                    break;
+                }
             }
             // WebSocket: one connection per line; a text frame when the line is UTF-8, a binary frame otherwise
             let shown = String::from_utf8_lossy(line).chars().take(80).collect::<String>();
